@@ -82,6 +82,9 @@ class Run:
 
     # ---- simplification / decisions
     def simplify_cond(self, c: Expr, use_smt=True) -> Optional[bool]:
+        import time as _time
+
+        self.ring.deadline = _time.time() + 3.0
         """use_smt: True = ring + linear hypotheses only (cheap); "full" = also the full (nonlinear) context."""
         if c.op == "bconst":
             return c.args[0]
